@@ -1525,8 +1525,14 @@ func c10Fixtures(c *eng.Ctx) {
 // the next sync sees old == new names, skips registration, and the name never resolves to
 // the cluster even after its previous holder released it.
 func c10R2p(x *c10x) {
+	x.c.Rule("R2p", "apply only after the name check: in the sync handler ClusterInfo.Sync / CreateClusterInfo are reachable only on the nil edge of a conflict pre-check of the same object", 2)
+	c10ApplyAfterNameCheck(x, "R2p")
+}
+
+// c10ApplyAfterNameCheck records the apply-after-check obligations under the given rule id
+// (C10.R2p; C11.R6).
+func c10ApplyAfterNameCheck(x *c10x, rule string) {
 	c := x.c
-	c.Rule("R2p", "apply only after the name check: in the sync handler ClusterInfo.Sync / CreateClusterInfo are reachable only on the nil edge of a conflict pre-check of the same object", 2)
 	sp := c10OwnerSpec{
 		isLookup:  func(ci ssa.CallInstruction) bool { return c10IsMgr(ci, "Get") },
 		ownerBase: func(v ssa.Value) ssa.Value { return eng.FieldBase(v, c10TCluster, "Cluster") },
@@ -1570,11 +1576,11 @@ func c10R2p(x *c10x) {
 				cc, _ := eng.CallResultOf(v)
 				return cc != nil && cc.Parent() == fn && isPreCheck(eng.CalleeFn(cc), 0)
 			}, true)
-			c.Check("R2p", fn, x.nth(fn, shortName(eng.FullName(ci))+" only after the conflict pre-check == nil"), ci.Pos(), ok,
+			c.Check(rule, fn, x.nth(fn, shortName(eng.FullName(ci))+" only after the conflict pre-check == nil"), ci.Pos(), ok,
 				"the object is applied to the cluster before (or without) its names being checked against their current holders: a refused update has already replaced the cluster's server-name list, later syncs see no difference and never register the name")
 		}
 	}
 	if n < 2 {
-		c.Fail("R2p", nil, "object applications in the controller", 0, "ClusterInfo.Sync / CreateClusterInfo calls not found")
+		c.Fail(rule, nil, "object applications in the controller", 0, "ClusterInfo.Sync / CreateClusterInfo calls not found")
 	}
 }
